@@ -11,8 +11,9 @@ import (
 
 func init() {
 	register("C16",
-		"DECIDED: D1 sketch table — for every accepted factor class other than 1, every feasible path of DDSketch.Reweight scales the zero weight by w and calls Reweight(w) on both the positive and the negative store with the same factor term (callee tables show no store can fail after the guard); the exact variant then reweights the statistics (C10-D1/D3). "+
+		"DECIDED: D1 sketch table — for every accepted factor class other than 1, every feasible path of DDSketch.Reweight scales the zero weight by w and calls Reweight(w) on both the positive and the negative store with the same factor term (callee tables show no store can fail after the guard); the exact variant then reweights the statistics. "+
 			"D2 every store body scales everything it holds: dense — cached total *= w and the loop multiplies every element of the window minIndex…maxIndex inclusive; sparse — the loop ranges over the map it writes and multiplies every entry by w; paginated — every element of every page is multiplied by w and every index that was in the buffer before it is truncated is re-added with weight exactly w through the store's own AddWithCount. "+
+			"D3 exact variant — its Reweight performs the inner Reweight first and, on the success edge only, the statistics Reweight with the same factor; SummaryStatistics.Reweight multiplies every accumulator (count, sum, sum compensation) by a positive factor and leaves min/max alone (the C10-D1/D3 obligations re-evaluated). "+
 			"NOT DECIDED: equality of the scaled values (float multiplication), interaction with collapse (the collapsing stores inherit the dense body — safe by C05-D1).",
 		"one obligation per factor class of the sketch table and per scaling clause of each store body",
 		false, runC16)
@@ -24,8 +25,11 @@ func runC16(c *Ctx) {
 		c.R.undecided("C16", "anchors", "", "", "sketch anchors resolve", err.Error())
 		return
 	}
-	c16Sketch(c, a)
+	c16Sketch(c, a, "C16-D1")
 	c16Stores(c, a)
+	// the exact variant: wrapper reweights the statistics after the inner sketch, and the statistics scale every accumulator
+	c10Wrappers(c, a, "C16-D3", "Reweight")
+	c10StatObject(c, a, "C16-D3", "Reweight")
 }
 
 func isTimesW(v *Term, base func(*Term) bool, w func(*Term) bool) bool {
@@ -35,8 +39,7 @@ func isTimesW(v *Term, base func(*Term) bool, w func(*Term) bool) bool {
 	return base(v.Args[0]) && w(v.Args[1]) || base(v.Args[1]) && w(v.Args[0])
 }
 
-func c16Sketch(c *Ctx, a *sketchAnchors) {
-	const rule = "C16-D1"
+func c16Sketch(c *Ctx, a *sketchAnchors, rule string) {
 	// callee error classes
 	var calleeErr ClassSet
 	seen := map[*ssa.Function]bool{}
@@ -60,7 +63,8 @@ func c16Sketch(c *Ctx, a *sketchAnchors) {
 		return
 	}
 	dom := mkDomain(paramScalar("w", 1, 2, constPoints("0", "1")))
-	paths, _ := exec(c, f, dom, 1)
+	// visit bound 3: a loop over a literal `[]Store{positive, negative}` is unrolled completely
+	paths, _ := exec(c, f, dom, 3)
 	isW := func(t *Term) bool { return t.isParam(1) }
 	for _, wc := range []int{3, 5} {
 		key := fmt.Sprintf("%s/w%s", shortFn(f), className(wPoints, wc))
